@@ -19,6 +19,9 @@ def gen_ops(rng, tree, nmin=1, nmax=6, sv_rate=0.1, dry_rate=0.2, show_rate=0.25
             op["sv"] = rng.choice(tc.SV_KINDS)
         if rng.random() < 0.15:
             op["verbose"] = rng.choice(["-v", "-vv", "--verbose"])   # must not change any outcome
+        if rng.random() < 0.1:
+            # the tag invariant is waived, nothing else: in these worlds config and tags agree, so every rule stays as it is
+            op["ignore_vcs_tag"] = True
         ops.append(op)
         if rng.random() < show_rate:
             ops.append({"op": "show"})
@@ -251,6 +254,9 @@ class Life:
                 w.clock = clock
             if op.get("dry"):
                 argv.append("--dry")
+            if op.get("ignore_vcs_tag"):
+                argv.append("--ignore-vcs-tag")
+                ctx.probe("ignore_vcs_tag_with_set_version" if op.get("sv") else "ignore_vcs_tag")
             if op.get("verbose"):
                 argv.insert(1, op["verbose"])
                 ctx.probe("verbose_flag")
